@@ -1,5 +1,6 @@
 """C03 - equality is a coherent equivalence that agrees with hashing and sets."""
 import json
+POOLS = {}
 
 def run(c, a):
     c.rule_text = ("(1) TLC emits, per type of the bounded universe, a group of values (numbers: lattice, infinities, width landmarks and decimal "
@@ -39,6 +40,7 @@ def run(c, a):
     depth = 14 if thorough else 9
     n = c.tlc_sim("ValueSetMC", "ValueSetSim.cfg", beh, 20000 if thorough else 2500, depth + 1, env={"VDEPTH": depth})
     c.note("behaviours", n)
+    POOLS["vset"] = json.loads(open(beh).readline())["pool"]
     predicted = impl_predictions(c, beh)
     c.note("predicted isolation-breaking histories from SetImpl:", predicted)
     vev = c.path("vset-ev.ndjson")
@@ -51,7 +53,7 @@ def ctx_for(lines, l):
     while i >= 0 and '"ev":"vreset"' not in lines[i]:
         i -= 1
     ops = [json.loads(x)["o"] for x in lines[i + 1:l]]
-    return {"beh": ops, "note": "pool is Pool of ValueSetSM.tla"}
+    return {"beh": ops, "pool": POOLS.get("vset")}
 
 def impl_predictions(c, beh_path, limit=60):
     """SetImpl.tla (Go slices made explicit) predicts histories in which acting on one set changes
